@@ -12,8 +12,8 @@ def plan(ctx):
         n = k + m
         if thorough:
             sets = list(esets(n, 1, m))
-            if len(sets) > 200:
-                sets = [s for s in sets if len(s) <= 1] + rnd.sample([s for s in sets if len(s) > 1], 160)
+            if len(sets) > 100:
+                sets = [s for s in sets if len(s) <= 1] + rnd.sample([s for s in sets if len(s) > 1], 90)
         else:
             # every set of one or two erasures; the larger ones (each costs a decode plus one reconstruct per erased index) sampled
             sets = list(esets(n, 1, min(m, 2)))
@@ -30,7 +30,7 @@ def plan(ctx):
     big = [(ISAV, 10, 4)] + ([(ISAC, 10, 4), (ISAV, 12, 4), (ISAC, 12, 6), (ISAV, 16, 4), (ISAV, 20, 4), (ISAC, 16, 8)] if thorough else [])
     for be, k, m in big:
         n = k + m
-        sets = [tuple(sorted(rnd.sample(range(n), rnd.randint(1, min(m, 2))))) for _ in range(1 if not thorough else 24)] + [tuple(range(2))]
+        sets = [tuple(sorted(rnd.sample(range(n), rnd.randint(1, min(m, 2))))) for _ in range(1 if not thorough else 8)] + [tuple(range(2))]
         for i, ch in enumerate(chunks(sets, 1)):
             obs.append(be_l1_ob(be, k, m, m, ch, tag="isalbig", idx=i, timeout=1800, mem=12))
     # injected inversion failure: error, never bytes
